@@ -352,3 +352,27 @@ Example C01_imp_history_ex :
                       (fun g (_ : unit) => map (fun r => tl r) g) self0 [(Some tt, true); (None, true); (Some tt, false); (None, false)]
   = [Some ([[2]], [[4]]); Some ([[1; 2]], [[3; 4]]); Some ([[2]], [[4]]); Some ([[1; 2]], [[3; 4]])]%Z.
 Proof. split; [reflexivity | vm_compute; reflexivity]. Qed.
+
+(* DERIVED OBJECTS.  __getitem__ (crop, strided slice) and copy() build a new AreaDefinition; whatever lon/lat cache a derived
+   object starts with, all its call histories are those of a fresh object of ITS grid provided that cache is empty or holds the
+   derived area's own whole-grid lon/lats (the invariant of C01_history_stateless, here as a statement about the initial state) ... *)
+Theorem C01_derived_history_stateless : forall (T : Type) (OP : ops T) (invT invP : T * T -> T * T) (child : area T)
+    (st0 : option (list (list (T * T)))) (ops : list c01_op),
+  (0 <= width child)%Z -> (0 <= height child)%Z -> Forall (c01_op_ok child) ops ->
+  st0 = None \/ st0 = Some (c01_whole OP invT child) ->
+  c01_run OP invT invP child false st0 ops = map (c01_stateless OP invT invP child) ops.
+Proof. intros T OP invT invP child st0 ops Hw Hh Hok Hst. apply c01_history_stateless; assumption. Qed.
+Print Assumptions C01_derived_history_stateless.
+(* ... and the variant that carries the parent's cached lon/lats over as parent.lons[yslice, xslice] is refuted for a strided
+   slice: the derived pixels are block centres, not every step-th parent pixel (parent 2x4, child = parent[:, ::2]) *)
+Theorem C01_derived_carried_cache_refuted :
+  let parent := mk_area 0%float 0%float 4%float 2%float 4 2 in
+  let child := mk_area 0%float 0%float 4%float 2%float 2 2 in
+  let id := fun p : float * float => p in
+  let carried := c01_slice_cached F64 (c01_fresh_lonlats F64 id parent None None) (Some ([0; 1], [0; 2])%Z) in
+  let ops := [OpLonlats None None false] in
+  Forall (c01_op_ok child) ops /\
+  c01_run F64 id id child false (Some carried) ops <> map (c01_stateless F64 id id child) ops /\
+  c01_run F64 id id child false None ops = map (c01_stateless F64 id id child) ops.
+Proof. exact c01_derived_carried_cache_refuted. Qed.
+Print Assumptions C01_derived_carried_cache_refuted.
